@@ -461,27 +461,28 @@ Proof. exact self_twice. Qed.
    raises as soon as an instance's file is among them; [perm] is the (arbitrary) order in which the set by_class hands
    out the pending instances of a round.  The graph [children] is fixed, i.e. all nested file names are free of
    $variables; links through $variables reset the parents in the code and are outside the model.
+   ([start] is qualified: SM/C17Whole.v, imported later, has a [start] of its own.)
    =================================================================================================================== *)
 
 (** Exactness of the repair, for every graph, limit, start and iteration order: the loop with the check raises exactly
     when the loop without it raises, and when they finish they ran the same rounds and the same collapse_one calls. *)
 Theorem c17_collapse_cycle_check_exact : forall children perm, (forall l, Permutation.Permutation (perm l) l) ->
   forall limit roots,
-  l_outcome (loop2 children perm limit (start roots)) = l_outcome (loop children limit roots) /\
-  (l_outcome (loop children limit roots) = Done -> loop2 children perm limit (start roots) = loop children limit roots).
+  l_outcome (loop2 children perm limit (C17Rounds.start roots)) = l_outcome (loop children limit roots) /\
+  (l_outcome (loop children limit roots) = Done -> loop2 children perm limit (C17Rounds.start roots) = loop children limit roots).
 Proof. exact cycle_check_exact. Qed.
 
 (** It never does more work or more rounds than the loop without the check. *)
 Theorem c17_collapse_cycle_check_work_le : forall children perm, (forall l, Permutation.Permutation (perm l) l) ->
   forall limit roots,
-  l_work (loop2 children perm limit (start roots)) <= l_work (loop children limit roots) /\
-  l_rounds (loop2 children perm limit (start roots)) <= l_rounds (loop children limit roots).
+  l_work (loop2 children perm limit (C17Rounds.start roots)) <= l_work (loop children limit roots) /\
+  l_rounds (loop2 children perm limit (C17Rounds.start roots)) <= l_rounds (loop children limit roots).
 Proof. exact cycle_check_work_le. Qed.
 
 (** The file that includes itself twice (2^limit - 1 collapses without the check, c17_collapse_work_exponential_refuted):
     one collapse, RecursionError in the second round - for every limit of at least 2 and every iteration order. *)
 Theorem c17_collapse_self_twice_raises_at_once : forall perm, (forall l, Permutation.Permutation (perm l) l) ->
-  forall limit, 2 <= limit -> loop2 (fun _ => [0; 0]) perm limit (start [0]) = (Raise, 2, 1).
+  forall limit, 2 <= limit -> loop2 (fun _ => [0; 0]) perm limit (C17Rounds.start [0]) = (Raise, 2, 1).
 Proof. exact self_twice_checked_any_order. Qed.
 
 (** The number of rounds no longer grows with the limit: with all files among [univ] (closed under inclusion) at most
@@ -489,6 +490,6 @@ Proof. exact self_twice_checked_any_order. Qed.
 Theorem c17_collapse_cycle_check_rounds_le_files : forall children perm, (forall l, Permutation.Permutation (perm l) l) ->
   forall univ, (forall f, In f univ -> incl (children f) univ) ->
   forall limit roots, incl roots univ ->
-  l_rounds (loop2 children perm limit (start roots)) <= S (length univ).
+  l_rounds (loop2 children perm limit (C17Rounds.start roots)) <= S (length univ).
 Proof. exact cycle_check_rounds_le_files. Qed.
 (* END round 4 - cycle repair ====================================================================================== *)
